@@ -1,7 +1,125 @@
 import Labella.Model.Render
+import Labella.Proofs.Rounding
+import Labella.Proofs.RenderLemmas
+import Mathlib.Algebra.Order.Field.Rat
+import Mathlib.Tactic.Ring
+import Mathlib.Tactic.Linarith
+import Mathlib.Tactic.NormNum
+import Labella.Props.C01
+/-! # C08 — drawn label boxes are pairwise disjoint and sit on the chosen side of the axis
+
+Along the axis disjointness follows from the C01 separation (label spacing ≥ 3 absorbs 1 unit of position rounding
+and < 2 units of origin truncation); across the axis from the layer offsets (layer gap ≥ 1). -/
 namespace Labella.C08
 open Labella Labella.Render
 
-theorem placeholder_gap (o : ROpt) : gapOf o = o.layerGap + o.nodeHeight := rfl
+/-! ### C08: boxes -/
+
+/-- two labels of one layer whose centres keep the C01 separation with a label spacing of at least 3 are drawn as
+disjoint boxes: the slack consumed by rounding positions (1) and truncating two origins (< 2) is < 3.
+`sep` is what C01 guarantees: `c_j − c_i ≥ (width_i + width_j)/2 + spacing − 1 − tol`. -/
+theorem boxes_disjoint_along_axis (o : ROpt) (a b : RNode) (spacing tol : ℚ)
+    (hla : a.layer = b.layer)
+    (ha : if o.dir.horizontalAxis then a.width = a.w else a.width = a.h)
+    (hb : if o.dir.horizontalAxis then b.width = b.w else b.width = b.h)
+    (hsp : 3 ≤ spacing) (htol : 0 ≤ tol)
+    (hsep : (a.width + b.width) / 2 + spacing - 1 - tol ≤ b.cur - a.cur) :
+    let A := modelBox o a
+    let B := modelBox o b
+    if o.dir.horizontalAxis then A.ox + A.w - tol < B.ox else A.oy + A.h - tol < B.oy := by
+  intro A B
+  have ka := abs_lt.mp (truncToZero_close (a.cur - a.width / 2))
+  have kb := abs_lt.mp (truncToZero_close (b.cur - b.width / 2))
+  cases hd : o.dir
+  · rw [hd] at ha hb
+    simp only [Dir.horizontalAxis, if_true] at ha hb ⊢
+    simp only [A, B, modelBox_eq, nodePos_up o _ hd]
+    linarith [ka.1, ka.2, kb.1, kb.2]
+  · rw [hd] at ha hb
+    simp only [Dir.horizontalAxis, if_true] at ha hb ⊢
+    simp only [A, B, modelBox_eq, nodePos_down o _ hd]
+    linarith [ka.1, ka.2, kb.1, kb.2]
+  · rw [hd] at ha hb
+    simp only [Dir.horizontalAxis, Bool.false_eq_true, if_false] at ha hb ⊢
+    simp only [A, B, modelBox_eq, nodePos_left o _ hd]
+    linarith [ka.1, ka.2, kb.1, kb.2]
+  · rw [hd] at ha hb
+    simp only [Dir.horizontalAxis, Bool.false_eq_true, if_false] at ha hb ⊢
+    simp only [A, B, modelBox_eq, nodePos_right o _ hd]
+    linarith [ka.1, ka.2, kb.1, kb.2]
+
+/-- every box lies wholly on the side of the axis named by the direction, more than `layerGap − 1` away from it -/
+theorem side_of_axis (o : ROpt) (n : RNode) (hnh : 0 ≤ o.nodeHeight) (hlg : 0 ≤ o.layerGap)
+    (hw : 0 ≤ n.w) (hh : 0 ≤ n.h)
+    (hth : if o.dir.horizontalAxis then n.h ≤ o.nodeHeight else n.w ≤ o.nodeHeight) :
+    onSideB o.dir (o.layerGap - 1) (modelBox o n) = true := by
+  have hpos := posOf_ge o n hnh hlg
+  cases hd : o.dir
+  · rw [hd] at hth
+    simp only [Dir.horizontalAxis, if_true] at hth
+    simp only [onSideB, decide_eq_true_eq, modelBox_eq, nodePos_up o n hd]
+    have k := truncToZero_of_nonpos (-posOf o n - o.nodeHeight) (by linarith)
+    linarith [k.1, k.2]
+  · simp only [onSideB, decide_eq_true_eq, modelBox_eq, nodePos_down o n hd]
+    have k := truncToZero_of_nonneg (posOf o n) (by linarith)
+    linarith [k.1, k.2]
+  · simp only [onSideB, decide_eq_true_eq, modelBox_eq, nodePos_left o n hd]
+    have k := truncToZero_of_nonpos (-posOf o n - o.nodeHeight - n.w + o.nodeHeight) (by linarith)
+    linarith [k.1, k.2]
+  · simp only [onSideB, decide_eq_true_eq, modelBox_eq, nodePos_right o n hd]
+    have k := truncToZero_of_nonneg (posOf o n) (by linarith)
+    linarith [k.1, k.2]
+
+/-- boxes of a farther layer lie wholly beyond the boxes of nearer layers (layer gap ≥ 1, labels no thicker
+than `nodeHeight`) -/
+theorem layers_nested (o : ROpt) (a b : RNode) (hnh : 0 ≤ o.nodeHeight) (hlg : 1 ≤ o.layerGap)
+    (hab : a.layer < b.layer)
+    (hta : if o.dir.horizontalAxis then a.h ≤ o.nodeHeight else a.w ≤ o.nodeHeight)
+    (hwa : 0 ≤ a.w ∧ 0 ≤ a.h) (hwb : 0 ≤ b.w ∧ 0 ≤ b.h)
+    (hub : o.dir = .up → b.h = o.nodeHeight) (hlb : o.dir = .left → True) :
+    ((modelBox o a).span o.dir).2 ≤ ((modelBox o b).span o.dir).1 := by
+  have hlg0 : 0 ≤ o.layerGap := by linarith
+  have hg : 0 ≤ gapOf o := by unfold gapOf; linarith
+  have hpa := posOf_ge o a hnh hlg0
+  have hpb := posOf_ge o b hnh hlg0
+  have hst := posOf_step o a b hg hab
+  have hgd : gapOf o = o.layerGap + o.nodeHeight := rfl
+  cases hd : o.dir
+  · rw [hd] at hta
+    simp only [Dir.horizontalAxis, if_true] at hta
+    have hbh := hub hd
+    simp only [Box.span, modelBox_eq, nodePos_up o _ hd]
+    have ka := truncToZero_of_nonpos (-posOf o a - o.nodeHeight) (by linarith)
+    have kb := truncToZero_of_nonpos (-posOf o b - o.nodeHeight) (by linarith)
+    linarith [ka.1, ka.2, kb.1, kb.2]
+  · rw [hd] at hta
+    simp only [Dir.horizontalAxis, if_true] at hta
+    simp only [Box.span, modelBox_eq, nodePos_down o _ hd]
+    have ka := truncToZero_of_nonneg (posOf o a) (by linarith)
+    have kb := truncToZero_of_nonneg (posOf o b) (by linarith)
+    linarith [ka.1, ka.2, kb.1, kb.2]
+  · rw [hd] at hta
+    simp only [Dir.horizontalAxis, Bool.false_eq_true, if_false] at hta
+    simp only [Box.span, modelBox_eq, nodePos_left o _ hd]
+    have ka := truncToZero_of_nonpos (-posOf o a - o.nodeHeight - a.w + o.nodeHeight) (by linarith [hwa.1])
+    have kb := truncToZero_of_nonpos (-posOf o b - o.nodeHeight - b.w + o.nodeHeight) (by linarith [hwb.1])
+    linarith [ka.1, ka.2, kb.1, kb.2]
+  · rw [hd] at hta
+    simp only [Dir.horizontalAxis, Bool.false_eq_true, if_false] at hta
+    simp only [Box.span, modelBox_eq, nodePos_right o _ hd]
+    have ka := truncToZero_of_nonneg (posOf o a) (by linarith)
+    have kb := truncToZero_of_nonneg (posOf o b) (by linarith)
+    linarith [ka.1, ka.2, kb.1, kb.2]
+
+
+/-- the separation hypothesis of `boxes_disjoint_along_axis` is exactly what C01 proves for neighbours of a layer:
+`sepAdjB o (1 + eps)` on the reported positions gives `gap − (1 + eps) ≤ c_j − c_i` with `gap = (w_i + w_j)/2 + spacing` -/
+theorem c01_gives_separation (o : Layout.ROpts) (a b : Layout.LItem × ℚ) (rest : List (Layout.LItem × ℚ))
+    (h : Layout.sepAdjB o (1 + Layout.eps) (a :: b :: rest) = true) :
+    (a.1.width + b.1.width) / 2 + Layout.spacing o a.1 b.1 - 1 - Layout.eps ≤ b.2 - a.2 := by
+  simp only [Layout.sepAdjB, Bool.and_eq_true, decide_eq_true_eq] at h
+  have h2 := h.1.2
+  simp only [Layout.gap, C01.halfDivisor_eq] at h2
+  linarith
 
 end Labella.C08
